@@ -296,7 +296,7 @@ def const_array(text):
     """`const N: &[T] = &[e1, .., en];`  ==>  `const N: [T; n] = [e1, .., en];` (Verus has no exec array-to-slice coercion in a const);
     n is counted from the initializer, so dropping or adding an element stays visible to every contract that mentions N."""
     m = rs.mask(text)
-    mm = re.search(r'(?:const|static)\s+(\w+)\s*:\s*&\s*(?:\'static\s+)?\[([^\]]+)\]\s*=\s*&\s*\[', text)
+    mm = re.search(r'(?:const|static)\s+(\w+)\s*:\s*&\s*(?:\'static\s+)?\[([^\]]+)\]\s*=(?:\s|\x01T?\d+\x01)*&\s*\[', text)
     if not mm:
         from vunit import Undecided
         raise Undecided('T4 const_array: not a `const|static N: &[T] = &[..]` item')
